@@ -157,6 +157,60 @@ fn run_case(case_id: usize, start: usize, lens: &[usize], seed: u64, orphan_fram
            "reported": reported, "end": end})
 }
 
+/// The same round trip THROUGH WAL FILES: the real RecordWriter over the real RollingWriter (as
+/// `open` hands it over), the real RecordReader over the real RollingReader.  Fillers bring the
+/// cursor to `gap` bytes before the end of a WAL file; then the entries (empty ones among them:
+/// a header-only frame is 7 bytes, the size of the largest padding + 1); optionally the writer is
+/// dropped and re-created from a reader in between; everything is read back.
+fn run_files_case(case_id: usize, gap: usize, lens: &[usize], seed: u64, restart: bool) -> Value {
+    use mrecordlog::verif::{RollingReader, RollingWriter};
+    let (_, _, blocks_per_file) = mrecordlog::verif::geometry();
+    let dir = crate::exec::TempDir::new();
+    let open_writer = |dir: &std::path::Path| -> RecordWriter<RollingWriter> {
+        let mut reader = RecordReader::open(RollingReader::open(dir).unwrap());
+        while let Ok(true) = reader.go_next() {}
+        reader.into_writer().unwrap()
+    };
+    let mut writer = open_writer(&dir.path);
+    let mut wrote = Vec::new();
+    let mut write = |writer: &mut RecordWriter<RollingWriter>, bytes: &[u8], wrote: &mut Vec<Value>| {
+        wrote.push(json!([bytes.len(), digest(bytes)]));
+        writer.write_record(RawEntry(bytes)).unwrap();
+    };
+    // fillers: whole blocks, then one frame that ends `gap` bytes before the end of the file
+    for _ in 0..blocks_per_file - 1 {
+        write(&mut writer, &vec![0xAAu8; BLOCK_NUM_BYTES - HDR], &mut wrote);
+    }
+    if BLOCK_NUM_BYTES >= gap + HDR {
+        write(&mut writer, &vec![0xBBu8; BLOCK_NUM_BYTES - gap - HDR], &mut wrote);
+    }
+    if restart {
+        writer.persist(PersistAction::Flush).unwrap();
+        drop(writer);
+        writer = open_writer(&dir.path);
+    }
+    for (idx, len) in lens.iter().enumerate() {
+        let bytes = plain_bytes(seed.wrapping_add(idx as u64), *len);
+        write(&mut writer, &bytes, &mut wrote);
+    }
+    writer.persist(PersistAction::Flush).unwrap();
+    drop(writer);
+    let mut reader = RecordReader::open(RollingReader::open(&dir.path).unwrap());
+    let mut read = Vec::new();
+    let mut errors = 0;
+    for _ in 0..10_000 {
+        match reader.go_next() {
+            Ok(true) => match reader.record::<RawEntry>() {
+                Some(entry) => read.push(json!([entry.0.len(), digest(entry.0)])),
+                None => errors += 1,
+            },
+            Ok(false) => break,
+            Err(_) => errors += 1,
+        }
+    }
+    json!({"ev": "filesrt", "id": case_id, "gap": gap, "restart": restart as i64, "wrote": wrote, "read": read, "errors": errors})
+}
+
 fn menu(rng: &mut Rng, cursor_in_block: usize) -> usize {
     let rem = BLOCK_NUM_BYTES - cursor_in_block % BLOCK_NUM_BYTES;
     let cap = if rem >= HDR { rem - HDR } else { BLOCK_NUM_BYTES - HDR };
@@ -244,9 +298,26 @@ pub fn cmd(args: &Args) {
             }
             lines.push(line);
         }
+        // through WAL files: every gap 0..=16 before the end of a file x a few tails (this chunk's share)
+        let tails: [&[usize]; 8] = [&[0, 5], &[0, 0, 5], &[5], &[0], &[1, 0, 3], &[0, 40_000, 0], &[32_761, 0, 2], &[200_000, 0]];
+        let mut file_case = 0;
+        for gap in 0..=16usize {
+            for (tail_idx, tail) in tails.iter().enumerate() {
+                for restart in [false, true] {
+                    file_case += 1;
+                    if file_case % chunks != chunk {
+                        continue;
+                    }
+                    let line = run_files_case(chunk * 1_000_000 + 500_000 + file_case, gap, tail, rng.next() ^ tail_idx as u64, restart);
+                    output_in.add("file_cases", 1);
+                    lines.push(line);
+                }
+            }
+        }
         output_in.add("trace_lines", lines.len() as u64);
         output_in.add("runs", 1);
         write_lines(file, &lines);
     });
     output.finish(json!({"cmd": "frames"}));
+    crate::exec::cleanup_scratch();
 }
